@@ -58,6 +58,33 @@ def make_flood(ctx, n, idx=0):
     return s
 
 
+def make_cyclic_flood(ctx, total, idx=1):
+    """rounds of (many distinct probes, one Query, a few large-TLV requests): the bound must hold across Queries too"""
+    rng = G.rng_for(ctx.seed, "C19c", idx)
+    cfg = G.rand_cfg(rng, mtu=rng.choice([576, 1500]))
+    own = cfg["mac"]
+    m = G.rand_mac(rng)
+    s = H.Scenario("cyc%d" % idx, meta=dict(kind="flood", n=0, cyclic=True))
+    s.iface(0, **H.iface_kw(cfg)).glob(**G.global_kw(G.rand_global(rng, icon_size=500)))
+    s.add("OPT sleep=0 txhex=0 txcap=0 ledger=1")
+    s.frame(0, W.discover(m, 1, 1, [], tos=0))
+    n = 0
+    seq = 1
+    per = rng.choice([1100, 1500])
+    while n < total:
+        for j in range(per):
+            src = bytes([2]) + (n + 1).to_bytes(5, "big")
+            real = bytes([6]) + ((n * 5 + 1) % (1 << 24)).to_bytes(5, "big")
+            s.frame(0, W.probe(own, src, own, real, train=(n % 2 == 0)))
+            n += 1
+        seq += 1
+        s.frame(0, W.query(own, m, seq))
+        n += 1
+    s.meta["n"] = n
+    s.frame(0, W.reset(m, tos=0))
+    return s
+
+
 def make_repeat(ctx, count, k):
     """the same non-Probe request K times in a fixed state"""
     scns = []
@@ -120,16 +147,18 @@ def monitor(scn, sobj, rep, sf, ck):
         series = [l[1] for l in leds[1:1 + n]]
         counts = [l[0] for l in leds[1:1 + n]]
         rep.count("flood_observations", len(series))
-        rep.extra["flood_live_bytes_at"] = {str(k): series[k - 1] for k in (1, 1024, 4096, 16384, len(series)) if 0 < k <= len(series)}
-        rep.extra["flood_high_water_bytes"] = max(l[3] for l in leds)
+        tag = "cyclic_flood" if sobj.meta.get("cyclic") else "flood"
+        rep.extra[tag + "_live_bytes_at"] = {str(k): series[k - 1] for k in (1, 1024, 4096, 16384, len(series)) if 0 < k <= len(series)}
+        rep.extra[tag + "_high_water_bytes"] = max(l[3] for l in leds)
         if len(series) > PLATEAU_AT:
-            ref = series[PLATEAU_AT - 1]
+            ref = max(series[:PLATEAU_AT])
             worst = max(series[PLATEAU_AT:])
             if worst > ref:
-                rep.violation("C19:retained-memory-grows-with-history:probe-flood",
-                              "flood of %d Probes with pairwise distinct sources and no Query: live bytes %d after %d observations, "
-                              "%d after %d (live allocations %d -> %d): retained state keeps growing"
-                              % (len(series), ref, PLATEAU_AT, worst, len(series), counts[PLATEAU_AT - 1], counts[-1]),
+                rep.violation("C19:retained-memory-grows-with-history:%s" % ("probe-flood-with-queries" if sobj.meta.get("cyclic") else "probe-flood"),
+                              "flood of %d Probes with pairwise distinct sources (%s): at most %d live bytes during the first %d frames, "
+                              "%d later (live allocations %d -> %d): retained state keeps growing"
+                              % (len(series), "a Query every ~1100 frames" if sobj.meta.get("cyclic") else "no Query", ref, PLATEAU_AT,
+                                 worst, max(counts[:PLATEAU_AT]), max(counts[PLATEAU_AT:])),
                               replay="# %s\n" % "flood scenario: Discover, then %d Probes with distinct (Ethernet source, real source), no Query" % n)
             else:
                 rep.nontrivial(("flood", len(series), ref))
@@ -206,6 +235,7 @@ def run(ctx):
     scns = [make_baseline()] + make_repeat(ctx, ctx.n(39, 390), 1000)
     scns += make_mixed(ctx, ctx.n(40, 1000), ctx.n(20000, 100000))
     scns.append(make_flood(ctx, ctx.n(40000, 100000)))
+    scns.append(make_cyclic_flood(ctx, ctx.n(40000, 100000)))
     # every shard's partial report carries its own stash; merge them by hand afterwards
     merged = {}
     orig_merge = rep.merge
@@ -233,5 +263,5 @@ def run(ctx):
     c = rep.counters
     rep.need("after_reset_checked", c.get("after_reset_checked", 0), ctx.n(40, 1000))
     rep.need("repeat_checked", c.get("repeat_checked", 0), ctx.n(39, 390))
-    rep.need("plateau_checked or violation", c.get("plateau_checked", 0) + (1 if any(k.startswith("C19:retained") for k in rep.viol) else 0), 1)
+    rep.need("plateau_checked or violation", c.get("plateau_checked", 0) + sum(1 for k in rep.viol if k.startswith("C19:retained")), 2)
     rep.need("mixed_frames", c.get("mixed_frames", 0), ctx.n(700000, 9 * 10 ** 7))
